@@ -17,7 +17,7 @@ import math
 
 from ..kernel import World, Skip, HarnessError
 
-NAMES = ("a", "b", "c", "d", "X", "Y")      # "X" / "Y" are ordinary feature names: only the lower-case x, y, z are reserved
+NAMES = ("a", "b", "c", "d", "X", "Y", "k", "xy")      # "X" / "Y" are ordinary feature names: only the lower-case x, y, z are reserved
 RESERVED = ("x", "y", "z", "t", "timestamp", "idx")
 UNARY = ("IDENTITY", "INVERTER", "SQUARE", "RECTIFIER", "SHIFT_RIGHT", "SHIFT_LEFT",
          "DIFFERENTIATOR", "INTEGRATOR")
@@ -46,7 +46,7 @@ NAN = float("nan")
 
 C01_OPS = ("create", "update", "remove", "setitem", "setitem_delete", "setitem_func", "setobs",
            "add_af", "operate", "operate_list", "apply", "aggregate", "correlator", "expr", "expr_noeq", "rejected",
-           "operate_any", "aggregate_any", "biop")
+           "operate_any", "aggregate_any", "biop", "coll_feature")
 # operator objects whose values are not modelled: the output column is adopted after the call
 # and everything else (names, widths, other columns, positions, timestamps) must be unchanged
 ANY_UNARY = ("FORWARD_FINITE_DIFF", "BACKWARD_FINITE_DIFF", "CENTERED_FINITE_DIFF", "SECOND_ORDER_FINITE_DIFF",
@@ -77,7 +77,7 @@ DUP_SAFE_OPS = ("sort", "sort_radix", "remove_list", "remove_obs", "remove_first
 # produced by the simplifier): the feature computations of C17, and everything that only moves Obs around
 LOOSE_OK_OPS = DUP_SAFE_OPS + ("abs_curv", "speed", "speed_direct", "ds", "remove")
 C17_OPS = ("abs_curv", "speed", "speed_direct", "ds", "transform", "fork_noise", "add_seconds", "speed_smoothed",
-           "coll_speed")
+           "coll_speed", "idle")
 
 
 def feq(a, b):
@@ -174,7 +174,8 @@ class TrackWorld(World):
                 "fam": w, "ops": ops, "size_bias": r.choice(["tiny", "pow2", "any"] * 5 + ["big"]),
                 "n_instants": r.choice([1, 2, 4, 6]), "calendar": r.random() < 0.3,
                 "with_features": r.random() < (0.3 if focus == "C04" else 0.6),
-                "fork_rate": r.choice([0, 0.02, 0.08]), "names": list(NAMES[: r.choice([2, 3, 4, 4])]) if r.random() < 0.85 else ["a", "X", "b", "Y"],
+                "fork_rate": r.choice([0, 0.02, 0.08]), "names": list(NAMES[: r.choice([2, 3, 4, 4])]) if r.random() < 0.8 else r.choice(
+                    [["a", "X", "b", "Y"], ["a", "k", "b", "xy"], ["xy", "k", "a"]]),
                 "sorted_tracks": 0.9 if focus == "C17" else r.choice([0.2, 0.6, 0.9]),
                 "renew": r.choice([0.01, 0.05, 0.15]), "callable_faults": r.choice([0, 0, 0.15, 0.4]),
                 "np_time": r.random() < 0.08, "zones": r.random() < 0.1,
@@ -373,8 +374,12 @@ class TrackWorld(World):
         return self._callable_fault(r, {"name": self._pick_name(r, m), "func": r.choice(["affine", "next_x"]),
                                         "base": self._uval()})
 
+    def _g_coll_feature(self, r, m):
+        return {"out": self._pick_name(r, m), "lit": r.choice([2, 3, 0.5, 10]), "how": r.choice(["operate", "add_af"]),
+                "base": self._uval()}
+
     def _g_add_af(self, r, m):
-        return self._callable_fault(r, {"name": self._pick_name(r, m), "func": r.choice(["affine", "next_x"]),
+        return self._callable_fault(r, {"name": self._pick_name(r, m), "func": r.choice(["affine", "next_x", "lazy_speed"]),
                                         "base": self._uval(), "byname": r.random() < 0.3})
 
     def _g_setobs(self, r, m):
@@ -527,7 +532,7 @@ class TrackWorld(World):
         return {"obs": self._gen_obs(r)}
 
     def _g_sort(self, r, m):
-        return {}
+        return {"chrono": r.random() < 0.25}
 
     def _g_set_obs(self, r, m):
         return {"obs": self._gen_obs(r), "i": r.randrange(64), "api": r.choice(["setitem", "setObs"])}
@@ -575,7 +580,7 @@ class TrackWorld(World):
         return {}
 
     def _g_extract(self, r, m):
-        return {"i": r.randrange(64), "j": r.randrange(64)}
+        return {"i": r.randrange(64), "j": r.randrange(64), "neg": r.random() < 0.2}
 
     def _g_span(self, r, m):
         def inst():
@@ -611,9 +616,14 @@ class TrackWorld(World):
     def _g_via(self, r, m):
         self.rtagc = getattr(self, "rtagc", 0) + 300
         return {"kind": r.choice(["resample_t", "resample_s", "mul2", "pow", "make_odd", "make_even", "loop_add",
-                                  "increment_time", "set_order", "loop", "loop"]),
-                "delta": r.choice([1, 2, 0.5, 7]), "n": r.choice([2, 3, 5, 9]), "to": r.randrange(self.cfg["sessions"]),
+                                  "increment_time", "set_order", "loop", "loop", "idle_begin", "idle_begin", "idle_end"]),
+                "delta": r.choice([1, 2, 0.5, 7]), "idle": r.choice([0.5, 5.0, 50.0]), "alias": r.random() < 0.5, "n": r.choice([2, 3, 5, 9]), "to": r.randrange(self.cfg["sessions"]),
                 "tag0": self.rtagc - 300}
+
+    def _g_idle(self, r, m):
+        st = self._g_via(r, m)
+        st["kind"] = r.choice(["idle_begin", "idle_begin", "idle_end"])
+        return st
 
     def _g_span_track(self, r, m):
         return {"other": r.randrange(self.cfg["sessions"])}
@@ -1030,6 +1040,13 @@ class TrackWorld(World):
 
     def _func(self, st, m):
         base = st["base"]
+        if st["func"] == "lazy_speed":
+            # an algorithm that needs the speeds and computes them on first use
+            def f(track, i):
+                if not track.hasAnalyticalFeature("speed"):
+                    track.estimate_speed()
+                return base + i
+            return f, [base + i for i in range(len(m["obs"]))]
         if st["func"] == "affine":
             return (lambda track, i: base + i), [base + i for i in range(len(m["obs"]))]
         # IndexError on the last observation: the documented NaN path of addAnalyticalFeature
@@ -1068,12 +1085,27 @@ class TrackWorld(World):
         t, m = self._sess(st)
         if len(m["obs"]) == 0 or st["name"] in RESERVED:
             raise Skip()
+        lazy = st["func"] == "lazy_speed"
+        if lazy and (len(m["obs"]) < 2 or "speed" in m["names"] or "ds" in m["names"] or st["name"] == "speed"
+                     or m.get("dup_obs") or m.get("loose_rows") or not self._sorted(m)):
+            raise Skip()
         f, exp = self._func(st, m)
         if st.get("byname"):
             f.__name__ = st["name"]           # documented default: the feature is named after the function
             rv, exc = self.call(t.addAnalyticalFeature, self._faulty(st, f))
         else:
             rv, exc = self.call(t.addAnalyticalFeature, self._faulty(st, f), st["name"])
+        if lazy and "speed" in t.getListAnalyticalFeatures():
+            # the speeds the algorithm computed on the way are a feature of the track from now on
+            got = list(t.getAnalyticalFeature("speed"))
+            self._setcol(m, "speed", got)
+            m["fresh"]["speed"] = m["geo"]
+            self.probe("user_algorithm_created_a_feature_on_the_way")
+            want = self._def_speed(m)
+            if len(got) != len(want) or any(not close(a, b) for a, b in zip(got, want)):
+                self.fail("C17", "speed.definition", "speeds computed by estimate_speed() inside a user algorithm",
+                          jsonable(want), jsonable(got))
+                return
         if st.get("fault") and self._after_callable_fault(st, t, m, st["name"], exc, "addAnalyticalFeature"):
             return "fault"
         if exc is not None:
@@ -1083,6 +1115,37 @@ class TrackWorld(World):
             self.fail("C01", "return.values", "addAnalyticalFeature returned other values than it stored",
                       jsonable(exp), jsonable(rv))
         self._check_all("C01", "add_af")
+
+    def op_coll_feature(self, st):
+        """The collection-level wrappers: TrackCollection.operate(expression) and
+        TrackCollection.addAnalyticalFeature(function, name) do to every track of the collection what
+        the method of the same name does to one."""
+        from tracklib.core import TrackCollection
+        out = st["out"]
+        if out in RESERVED:
+            raise Skip()
+        sess = [s_ for s_ in sorted(self.model) if len(self.model[s_]["obs"]) >= 1 and not self.model[s_].get("dup_obs")
+                and not self.model[s_].get("loose_rows") and not self.model[s_].get("linked")]
+        if not sess or any(self.real[a] is self.real[b] for a in sess for b in sess if a < b):
+            raise Skip()
+        coll = TrackCollection([self.real[s_] for s_ in sess])
+        if st["how"] == "operate":
+            lit = st["lit"]
+            _, exc = self.call(coll.operate, "%s=idx*%s+x" % (out, self._lit(lit)))
+            exps = {s_: [i * float(lit) + o["x"] for i, o in enumerate(self.model[s_]["obs"])] for s_ in sess}
+        else:
+            base = st["base"]
+            _, exc = self.call(coll.addAnalyticalFeature, (lambda track, i: base + 2.0 * i), out)
+            exps = {s_: [base + 2.0 * i for i in range(len(self.model[s_]["obs"]))] for s_ in sess}
+        if exc is not None:
+            return self._unexpected("C01", exc, "TrackCollection.%s" % st["how"])
+        for s_ in sess:
+            self._setcol(self.model[s_], out, exps[s_])
+            self.model[s_]["fresh"].pop(out, None)
+        self.probe("feature_written_through_a_collection")
+        if any(len(self.model[s_]["obs"]) == 1 for s_ in sess):
+            self.probe("collection_with_a_track_of_one_observation")
+        self._check_all("C01", "TrackCollection.%s (every track of the collection gets the feature)" % st["how"])
 
     def op_setobs(self, st):
         t, m = self._sess(st)
@@ -1606,6 +1669,8 @@ class TrackWorld(World):
                 [(u + v) * (w - float(lit)) for u, v, w in zip(A, B, C)], [a, b, c], 3
         if sh == "extvar":
             # the same expression text again and again, with another value of the external variable
+            if "k" in m["names"] or st.get("out") == "k":
+                raise Skip()        # a feature and an external of the same name in one request: unspecified
             k = float(st.get("kval", 2.0))
             self._ext = {"k": k}
             return "%s*k" % a, [v * k for v in A], [a], 1
@@ -1941,6 +2006,20 @@ class TrackWorld(World):
             self.probe("sort_of_sorted")
         elif all(tuple(m["obs"][i]["t"]) >= tuple(m["obs"][i + 1]["t"]) for i in range(n - 1)):
             self.probe("sort_of_reverse_sorted")
+        if st.get("chrono"):
+            # another user wants the same fixes in time order and leaves the arrival order alone:
+            # a second track on the list getObsList() hands out, sorted
+            from tracklib.core import Track
+            chrono, exc = self.call(lambda: Track(t.getObsList()))
+            if exc is None:
+                _, exc = self.call(chrono.sort)
+            if exc is not None:
+                return self._unexpected("C04", exc, "Track(t.getObsList()).sort()")
+            self.probe("second_track_on_the_same_list_sorted")
+            m2 = {"obs": list(m["obs"])}
+            if self._adopt_order("C04", chrono, m2, list(m["obs"]), "sort of a second track on the same list"):
+                self._check_all("C04", "sort of a second track built on the list of this one")
+            return
         _, exc = self.call(t.sort)
         if exc is not None:
             return self._unexpected("C04", exc, "sort")
@@ -2195,6 +2274,12 @@ class TrackWorld(World):
         if n == 0:
             raise Skip()
         i, j = sorted((st["i"] % n, st["j"] % n))
+        if st.get("neg"):
+            # both indexes counted from the end, as everywhere in Python: extract(-3, -1) is the last three
+            self.probe("extract_with_indexes_from_the_end")
+            self._derive(st, "extract(%d, %d)" % (i - n, j - n), lambda: t.extract(i - n, j - n),
+                         m["obs"][i:j + 1], m)
+            return
         if (st["i"] + st["j"]) % 9 == 0:
             j = i - 1                       # an empty range (the accumulate pattern starts from it)
             self.probe("empty_index_range")
@@ -2290,8 +2375,21 @@ class TrackWorld(World):
             return
         if n < 2 or not self._sorted(m):
             raise Skip()
-        fork = k in ("mul2", "pow")
-        if k == "resample_t":
+        fork = k in ("mul2", "pow", "idle_begin", "idle_end")
+        # the step "idle" belongs to C17's family (as fork_noise does): a track produced from another one
+        # whose abscissas and speeds are then computed independently of the source's
+        fprop = "C17" if st.get("op") == "idle" else "C04"
+        if k in ("idle_begin", "idle_end"):
+            # removal of the idle fixes at one end (track >= d, track <= d): which fixes go is not
+            # judged; the track that comes out is a track of its own
+            if any(not self._numeric(m, c) for c in ("x", "y")):
+                raise Skip()
+            if st.get("alias"):
+                rv, exc = self.call(t.__ge__ if k == "idle_begin" else t.__le__, st["idle"])
+            else:
+                rv, exc = self.call(t.removeIdleEnds, st["idle"], "begin" if k == "idle_begin" else "end")
+            self.probe("idle_end_removed")
+        elif k == "resample_t":
             ts = [abs_seconds(o["t"]) for o in m["obs"]]
             if any(ts[i] >= ts[i + 1] for i in range(n - 1)) or (ts[-1] - ts[0]) / st["delta"] > 60:
                 raise Skip()            # strictly increasing timestamps; at most 60 instants come out
@@ -2327,6 +2425,11 @@ class TrackWorld(World):
         if target is None or not hasattr(target, "getObs"):
             raise Skip()
         nm = self._adopt_all(target, st.get("tag0", 10 ** 6))
+        if nm is not None and len(set(id(target.getObs(i)) for i in range(target.size()))) != target.size():
+            nm = None           # the same observation object at two places (an index range that wrapped around)
+            if fork:
+                self._check_all(fprop, "%s (the source track must be unchanged)" % k)
+                return
         if nm is not None and nm.get("loose_rows"):
             self.fail("C01", "table.width", "%s: the track that comes out lists %d feature(s) but some of its "
                       "observations carry more values (the next feature created on it will be read from the wrong "
@@ -2335,7 +2438,7 @@ class TrackWorld(World):
             return
         dest = to if fork else s
         if fork:
-            self._check_all("C04", "%s (the source track must be unchanged)" % k)
+            self._check_all(fprop, "%s (the source track must be unchanged)" % k)
             if self.violations:
                 return
         if nm is None:
@@ -2348,7 +2451,12 @@ class TrackWorld(World):
         self.real[dest], self.model[dest] = target, nm
         self.derived.pop(dest, None)
         self.probe("track_went_through_another_subsystem")
-        self._check_all("C04", "%s (adopted)" % k)
+        self._check_all(fprop, "%s (adopted)" % k)
+
+    def op_idle(self, st):
+        """track >= d / track <= d (idle ends removed): the track that comes out becomes a session of
+        its own, whose abscissas and speeds are computed independently of its source's."""
+        return self.op_via(st)
 
     def op_describe(self, st):
         """Printing and summarising a track are read-only."""
